@@ -341,6 +341,12 @@ func (s *Sorts) prelude() string {
 	b.WriteString("(declare-sort Str 0)\n")
 	fmt.Fprintf(&b, "(declare-fun str_len (Str) %s)\n", idx)
 	fmt.Fprintf(&b, "(declare-fun str_at (Str %s) %s)\n", idx, u8)
+	// every string has a length between 0 and 2^47 (address-space bound)
+	if s.mode == BV {
+		b.WriteString("(assert (forall ((s!a Str)) (! (and (bvsle #x0000000000000000 (str_len s!a)) (bvsle (str_len s!a) #x00007fffffffffff)) :pattern ((str_len s!a)))))\n")
+	} else {
+		b.WriteString("(assert (forall ((s!a Str)) (! (and (<= 0 (str_len s!a)) (<= (str_len s!a) 140737488355327)) :pattern ((str_len s!a)))))\n")
+	}
 	fmt.Fprintf(&b, "(declare-datatype Slice ((mk_Slice (s_arr Int) (s_off %s) (s_len %s) (s_cap %s))))\n", idx, idx, idx)
 	// Iface depends only on scalar sorts, Str, Slice and iface-free structs.
 	// Struct sorts that are payloads must be declared before Iface; structs
